@@ -12,12 +12,14 @@ open AL
 structure RegInv (s : RegState) : Prop where
   nodupRegs : NoDupKeys s.regs
   nodupLimits : NoDupKeys s.limits
-  nodupRecs : NoDupKeys s.recs
+  sortedRecs : RecsSorted s.recs
   idsBelowNext : ∀ id m, find? s.regs id = some m → m.id = id ∧ id < s.nextId
   hasLimit : ∀ id m, find? s.regs id = some m → ∃ l, find? s.limits id = some l ∧ 1 ≤ l
   recsBounded : ∀ id k r, find? s.recs (id, k) = some r →
       ∃ m, find? s.regs id = some m ∧ 1 ≤ k ∧ k ≤ m.last ∧ r.key = k
   paramsValid : s.params.validate = true
+
+theorem RegInv.nodupRecs {s : RegState} (hi : RegInv s) : NoDupKeys s.recs := nodup_of_sorted _ hi.sortedRecs
 
 /-- history assumption: no 64-bit counter of this registry is about to wrap -/
 def RegBounded (s : RegState) : Prop :=
@@ -62,15 +64,15 @@ theorem regInv_register (s : RegState) (now : Nat) (mk nm gn ty : String) (o : A
   constructor
   · exact nodup_insert _ _ _ hi.nodupRegs
   · exact nodup_insert _ _ _ hi.nodupLimits
-  · exact hi.nodupRecs
+  · exact hi.sortedRecs
   · intro id m hm
-    simp only [RegState.registered, find_insert] at hm
+    simp only [RegState.registered, find_insert, find_insertRec] at hm
     simp only [RegState.registered, hnext]
     split at hm
     · rename_i he; cases hm; subst he; exact ⟨rfl, by omega⟩
     · have := hi.idsBelowNext id m hm; exact ⟨this.1, by omega⟩
   · intro id m hm
-    simp only [RegState.registered, find_insert] at hm ⊢
+    simp only [RegState.registered, find_insert, find_insertRec] at hm ⊢
     split at hm
     · rename_i he; subst he; exact ⟨_, by simp, (validate_defLimit _ hi.paramsValid).1⟩
     · rename_i hne
@@ -80,7 +82,7 @@ theorem regInv_register (s : RegState) (now : Nat) (mk nm gn ty : String) (o : A
     obtain ⟨m, hm, h1, h2, h3⟩ := hi.recsBounded id k r hr
     have hne : s.nextId ≠ id := by
       intro he; subst he; rw [hfresh] at hm; cases hm
-    exact ⟨m, by simp [RegState.registered, find_insert, hne, hm], h1, h2, h3⟩
+    exact ⟨m, by simp [RegState.registered, find_insert, find_insertRec, hne, hm], h1, h2, h3⟩
   · exact hi.paramsValid
 
 theorem addU64_no_wrap (l n : Nat) (hn : n < two64) (h : l ≤ addU64 l n) : addU64 l n = l + n := by
@@ -108,11 +110,11 @@ theorem regInv_purchase (s : RegState) (id n : Nat) (o : AddrTok) (s' : RegState
   constructor
   · exact hi.nodupRegs
   · exact nodup_insert _ _ _ hi.nodupLimits
-  · exact hi.nodupRecs
+  · exact hi.sortedRecs
   · exact hi.idsBelowNext
   · intro id' m' hm'
     obtain ⟨l, hl, h1⟩ := hi.hasLimit id' m' hm'
-    simp only [find_insert]
+    simp only [find_insert, find_insertRec]
     split
     · rename_i he; subst he
       refine ⟨_, rfl, ?_⟩
@@ -128,7 +130,7 @@ theorem regInv_setParams (s : RegState) (p : RegParams) (s' : RegState) (hi : Re
     s'.params = p ∧ p.validate = true := by
   simp only [RegState.setParams, bind_eq_ok, pure_eq_ok, require_eq_ok] at h
   obtain ⟨_, hv, rfl⟩ := h
-  exact ⟨⟨hi.nodupRegs, hi.nodupLimits, hi.nodupRecs, hi.idsBelowNext, hi.hasLimit, hi.recsBounded, hv⟩,
+  exact ⟨⟨hi.nodupRegs, hi.nodupLimits, hi.sortedRecs, hi.idsBelowNext, hi.hasLimit, hi.recsBounded, hv⟩,
     rfl, rfl, rfl, rfl, rfl, hv⟩
 
 end Mainchain
@@ -151,12 +153,12 @@ theorem limitOf_of_find (s : RegState) (id l : Nat) (h : find? s.limits id = som
 
 /-- the two shapes of the state after `RecordNewBeaconTimestamp` -/
 def bcnAfterKeep (s : RegState) (m : RegMeta) (hash : String) (st : Nat) : RegState :=
-  { s with recs := insert s.recs (m.id, m.last + 1) { key := m.last + 1, h0 := hash, subTime := st }
+  { s with recs := insertRec s.recs (m.id, m.last + 1) { key := m.last + 1, h0 := hash, subTime := st }
            regs := insert s.regs m.id { m with last := m.last + 1, lowest := if m.lowest = 0 then m.last + 1 else m.lowest,
                                                num := m.num + 1 } }
 
 def bcnAfterPrune (s : RegState) (m : RegMeta) (hash : String) (st : Nat) : RegState :=
-  { s with recs := erase (insert s.recs (m.id, m.last + 1) { key := m.last + 1, h0 := hash, subTime := st }) (m.id, m.lowest)
+  { s with recs := erase (insertRec s.recs (m.id, m.last + 1) { key := m.last + 1, h0 := hash, subTime := st }) (m.id, m.lowest)
            regs := insert s.regs m.id { m with last := m.last + 1, lowest := m.lowest + 1, num := m.num } }
 
 theorem recordBcn_eq (s : RegState) (m : RegMeta) (hash : String) (st : Nat)
@@ -164,7 +166,7 @@ theorem recordBcn_eq (s : RegState) (m : RegMeta) (hash : String) (st : Nat)
     s.recordBcn m hash st =
       (if m.num + 1 > (s.limitOf m.id).1 then
         (if m.lowest = 0 then
-          { s with recs := erase (insert s.recs (m.id, m.last + 1) { key := m.last + 1, h0 := hash, subTime := st }) (m.id, m.last + 1)
+          { s with recs := erase (insertRec s.recs (m.id, m.last + 1) { key := m.last + 1, h0 := hash, subTime := st }) (m.id, m.last + 1)
                    regs := insert s.regs m.id { m with last := m.last + 1, lowest := addU64 (m.last + 1) 1, num := m.num } }
          else bcnAfterPrune s m hash st)
        else bcnAfterKeep s m hash st, m.last + 1) := by
@@ -190,19 +192,19 @@ theorem bcnKeep_regInv (s : RegState) (m : RegMeta) (id : Nat) (hash : String) (
   constructor
   · exact nodup_insert _ _ _ hi.nodupRegs
   · exact hi.nodupLimits
-  · exact nodup_insert _ _ _ hi.nodupRecs
+  · exact sorted_insertRec _ _ _ hi.sortedRecs
   · intro id' m' hm'
-    simp only [bcnAfterKeep, find_insert] at hm'
+    simp only [bcnAfterKeep, find_insert, find_insertRec] at hm'
     split at hm'
     · rename_i he; cases hm'; subst he; exact ⟨rfl, (hi.idsBelowNext _ _ hm).2⟩
     · exact hi.idsBelowNext id' m' hm'
   · intro id' m' hm'
-    simp only [bcnAfterKeep, find_insert] at hm'
+    simp only [bcnAfterKeep, find_insert, find_insertRec] at hm'
     split at hm'
     · rename_i he; subst he; exact ⟨l, hl, hl1⟩
     · exact hi.hasLimit id' m' hm'
   · intro id' k r hr
-    simp only [bcnAfterKeep, find_insert] at hr
+    simp only [bcnAfterKeep, find_insert, find_insertRec] at hr
     split at hr
     · rename_i he; cases hr
       obtain ⟨rfl, rfl⟩ := Prod.mk.inj he
@@ -220,18 +222,19 @@ theorem bcnPrune_regInv (s : RegState) (m : RegMeta) (id : Nat) (hash : String) 
   have hid : m.id = id := (hi.idsBelowNext id m hm).1
   subst hid
   obtain ⟨l, hl, hl1⟩ := hi.hasLimit _ m hm
-  have hnd := nodup_insert s.recs (m.id, m.last + 1) ({ key := m.last + 1, h0 := hash, subTime := st } : Rec) hi.nodupRecs
+  have hsr := sorted_insertRec s.recs (m.id, m.last + 1) ({ key := m.last + 1, h0 := hash, subTime := st } : Rec) hi.sortedRecs
+  have hnd := nodup_of_sorted _ hsr
   constructor
   · exact nodup_insert _ _ _ hi.nodupRegs
   · exact hi.nodupLimits
-  · exact nodup_erase _ _ hnd
+  · exact sorted_erase _ _ hsr
   · intro id' m' hm'
-    simp only [bcnAfterPrune, find_insert] at hm'
+    simp only [bcnAfterPrune, find_insert, find_insertRec] at hm'
     split at hm'
     · rename_i he; cases hm'; subst he; exact ⟨rfl, (hi.idsBelowNext _ _ hm).2⟩
     · exact hi.idsBelowNext id' m' hm'
   · intro id' m' hm'
-    simp only [bcnAfterPrune, find_insert] at hm'
+    simp only [bcnAfterPrune, find_insert, find_insertRec] at hm'
     split at hm'
     · rename_i he; subst he; exact ⟨l, hl, hl1⟩
     · exact hi.hasLimit id' m' hm'
@@ -239,7 +242,7 @@ theorem bcnPrune_regInv (s : RegState) (m : RegMeta) (id : Nat) (hash : String) 
     simp only [bcnAfterPrune] at hr
     by_cases hk : (m.id, m.lowest) = (id', k)
     · rw [← hk, find_erase_eq _ _ hnd] at hr; cases hr
-    · rw [find_erase_ne _ _ _ hk, find_insert] at hr
+    · rw [find_erase_ne _ _ _ hk, find_insertRec] at hr
       split at hr
       · rename_i he; cases hr
         obtain ⟨rfl, rfl⟩ := Prod.mk.inj he
@@ -262,12 +265,12 @@ theorem bcnKeep_counters (s : RegState) (m : RegMeta) (id : Nat) (hash : String)
   subst hid
   constructor
   · intro id' m' hm' h0
-    simp only [bcnAfterKeep, find_insert] at hm'
+    simp only [bcnAfterKeep, find_insert, find_insertRec] at hm'
     split at hm'
     · cases hm'; simp at h0
     · exact hc.empty id' m' hm' h0
   · intro id' m' hm' h0
-    simp only [bcnAfterKeep, find_insert] at hm'
+    simp only [bcnAfterKeep, find_insert, find_insertRec] at hm'
     split at hm'
     · cases hm'
       simp only
@@ -279,7 +282,7 @@ theorem bcnKeep_counters (s : RegState) (m : RegMeta) (id : Nat) (hash : String)
         simp [this]; omega
     · exact hc.range id' m' hm' h0
   · intro id' m' k hm'
-    simp only [bcnAfterKeep, find_insert] at hm' ⊢
+    simp only [bcnAfterKeep, find_insert, find_insertRec] at hm' ⊢
     split at hm'
     · rename_i he; subst he; cases hm'
       simp only
@@ -308,7 +311,7 @@ theorem bcnKeep_counters (s : RegState) (m : RegMeta) (id : Nat) (hash : String)
       simp only [this, if_false]
       exact hc.present id' m' k hm'
   · intro id' m' hm'
-    simp only [bcnAfterKeep, find_insert] at hm'
+    simp only [bcnAfterKeep, find_insert, find_insertRec] at hm'
     show m'.num ≤ (s.limitOf id').1
     split at hm'
     · rename_i he; subst he; cases hm'; exact hroom
@@ -320,21 +323,22 @@ theorem bcnPrune_counters (s : RegState) (m : RegMeta) (id : Nat) (hash : String
   have hid : m.id = id := (hi.idsBelowNext id m hm).1
   subst hid
   obtain ⟨hlow1, hrange⟩ := hc.range _ m hm hpos
-  have hnd := nodup_insert s.recs (m.id, m.last + 1) ({ key := m.last + 1, h0 := hash, subTime := st } : Rec) hi.nodupRecs
+  have hsr := sorted_insertRec s.recs (m.id, m.last + 1) ({ key := m.last + 1, h0 := hash, subTime := st } : Rec) hi.sortedRecs
+  have hnd := nodup_of_sorted _ hsr
   constructor
   · intro id' m' hm' h0
-    simp only [bcnAfterPrune, find_insert] at hm'
+    simp only [bcnAfterPrune, find_insert, find_insertRec] at hm'
     split at hm'
     · cases hm'; simp at h0; omega
     · exact hc.empty id' m' hm' h0
   · intro id' m' hm' h0
-    simp only [bcnAfterPrune, find_insert] at hm'
+    simp only [bcnAfterPrune, find_insert, find_insertRec] at hm'
     split at hm'
     · cases hm'; simp; omega
     · exact hc.range id' m' hm' h0
   · intro id' m' k hm'
-    simp only [bcnAfterPrune, find_insert] at hm'
-    show (find? (erase (insert s.recs (m.id, m.last + 1) _) (m.id, m.lowest)) (id', k)).isSome ↔ _
+    simp only [bcnAfterPrune, find_insert, find_insertRec] at hm'
+    show (find? (erase (insertRec s.recs (m.id, m.last + 1) _) (m.id, m.lowest)) (id', k)).isSome ↔ _
     split at hm'
     · rename_i he; subst he; cases hm'
       simp only
@@ -344,7 +348,7 @@ theorem bcnPrune_counters (s : RegState) (m : RegMeta) (id : Nat) (hash : String
         rw [find_erase_eq _ _ hnd]
         simp; omega
       · have hk' : k ≠ m.lowest := fun e => hk (by rw [e])
-        rw [find_erase_ne _ _ _ hk, find_insert]
+        rw [find_erase_ne _ _ _ hk, find_insertRec]
         split
         · rename_i he; have := (Prod.mk.inj he).2; subst this; simp; omega
         · rename_i hne2
@@ -355,10 +359,10 @@ theorem bcnPrune_counters (s : RegState) (m : RegMeta) (id : Nat) (hash : String
           · rintro ⟨_, h1, h2⟩; exact ⟨hpos, by omega, by omega⟩
     · rename_i hne2
       have hk : (m.id, m.lowest) ≠ (id', k) := fun e => hne2 (Prod.mk.inj e).1
-      rw [find_erase_ne _ _ _ hk, find_insert_ne _ _ _ _ (fun e => hne2 (Prod.mk.inj e).1)]
+      rw [find_erase_ne _ _ _ hk, find_insertRec_ne _ _ _ _ (fun e => hne2 (Prod.mk.inj e).1)]
       exact hc.present id' m' k hm'
   · intro id' m' hm'
-    simp only [bcnAfterPrune, find_insert] at hm'
+    simp only [bcnAfterPrune, find_insert, find_insertRec] at hm'
     show m'.num ≤ (s.limitOf id').1
     split at hm'
     · rename_i he; subst he; cases hm'; exact hc.withinLimit _ m hm
@@ -429,28 +433,28 @@ theorem bcn_register_inv (s : RegState) (now : Nat) (mk nm gn ty : String) (o : 
     | some r => obtain ⟨m2, hm2, _⟩ := hi.reg.recsBounded _ _ r hf; rw [hfresh] at hm2; cases hm2
   constructor
   · intro id' m' hm' h0
-    simp only [RegState.registered, find_insert] at hm'
+    simp only [RegState.registered, find_insert, find_insertRec] at hm'
     split at hm'
     · cases hm'; exact ⟨rfl, rfl⟩
     · exact hi.cnt.empty id' m' hm' h0
   · intro id' m' hm' h0
-    simp only [RegState.registered, find_insert] at hm'
+    simp only [RegState.registered, find_insert, find_insertRec] at hm'
     split at hm'
     · cases hm'; simp at h0
     · exact hi.cnt.range id' m' hm' h0
   · intro id' m' k hm'
-    simp only [RegState.registered, find_insert] at hm'
+    simp only [RegState.registered, find_insert, find_insertRec] at hm'
     show (find? s.recs (id', k)).isSome ↔ _
     split at hm'
     · rename_i he; subst he; cases hm'; simp [hnorec k]
     · exact hi.cnt.present id' m' k hm'
   · intro id' m' hm'
-    simp only [RegState.registered, find_insert] at hm'
+    simp only [RegState.registered, find_insert, find_insertRec] at hm'
     split at hm'
     · cases hm'; simp
     · rename_i hne
       have := hi.cnt.withinLimit id' m' hm'
-      simpa [RegState.registered, RegState.limitOf, find_insert, hne] using this
+      simpa [RegState.registered, RegState.limitOf, find_insert, find_insertRec, hne] using this
 
 theorem bcn_purchase_inv (s : RegState) (id n : Nat) (o : AddrTok) (s' : RegState) (can : Nat)
     (hi : BcnInv s) (h : s.purchase id n o = .ok (s', can)) : BcnInv s' := by
